@@ -1,19 +1,426 @@
-//! Engine `value` — not built yet (stub).
+//! Engine `value` (C19): the real `types` module (VarInt, Blob, DataType compare / hash / cast / serialize) and the
+//! B+tree key comparison against the Lean model `AxVerif.Value`.
+//!
+//! Case syntax (one per line):
+//!   zz <i64> | uzz <u64> | vi.enc <i64> | vi.dec <hex> | vi.read <hex> | vi.cmp <hex> <hex>
+//!   blob.enc <hex> | blob.dec <hex> | blob.cmp <hex> <hex>
 use super::{Case, Engine, Tier};
 use crate::rng::Rng;
+use crate::util::{hex, hex_or_dash, unhex};
+use axmosdb::types::{Blob, DataTypeKind, DataTypeRef, SerializationError};
+use axmosdb::verif::value as hooks;
+use std::cmp::Ordering;
 
 pub struct ValueEngine;
 
-impl Engine for ValueEngine {
-    fn gen_cases(&self, _rng: &mut Rng, _tier: Tier) -> Vec<Case> {
-        Vec::new()
-    }
-    fn exec(&mut self, _line: &str) -> String {
-        "unimplemented".into()
+fn ser_err(e: &SerializationError) -> &'static str {
+    match e {
+        SerializationError::InvalidVarIntPrefix => "prefix",
+        SerializationError::UnexpectedEof => "eof",
+        SerializationError::NotSupported => "unsupported",
+        SerializationError::BytemuckError(_) => "bytemuck",
+        SerializationError::Io(_) => "io",
+        SerializationError::Rkyv(_) => "rkyv",
+        SerializationError::Other(_) => "other",
     }
 }
 
-/// Content of `lean/AxVerif/Generated/<Engine>.lean`, if this engine extracts constants from the code.
+fn ord_name(o: Ordering) -> &'static str {
+    match o {
+        Ordering::Less => "lt",
+        Ordering::Equal => "eq",
+        Ordering::Greater => "gt",
+    }
+}
+
+fn exec_line(line: &str) -> String {
+    let ws: Vec<&str> = line.split_whitespace().collect();
+    match ws.as_slice() {
+        ["zz", v] => match v.parse::<i64>() {
+            Ok(v) => hooks::zigzag_encode(v).to_string(),
+            Err(_) => "bad-op".into(),
+        },
+        ["uzz", u] => match u.parse::<u64>() {
+            Ok(u) => hooks::zigzag_decode(u).to_string(),
+            Err(_) => "bad-op".into(),
+        },
+        ["vi.enc", v] => match v.parse::<i64>() {
+            Ok(v) => {
+                let e = hooks::varint_encode(v);
+                let rt = match hooks::varint_decode(&e) {
+                    Ok((v2, used)) if v2 == v && used == e.len() => "rt=ok",
+                    _ => "rt=DIFF",
+                };
+                format!("{} size={} {}", hex(&e), hooks::varint_encoded_size(v), rt)
+            }
+            Err(_) => "bad-op".into(),
+        },
+        ["vi.dec", h] => match unhex(h) {
+            Some(bs) => match hooks::varint_decode(&bs) {
+                Ok((v, used)) => format!("ok {} used={}", v, used),
+                Err(e) => format!("err {}", ser_err(&e)),
+            },
+            None => "bad-op".into(),
+        },
+        ["vi.read", h] => match unhex(h) {
+            Some(bs) => match hooks::varint_read_buf(&bs) {
+                Ok(p) => format!("ok {}", hex(&p)),
+                Err(e) => format!("err {}", ser_err(&e)),
+            },
+            None => "bad-op".into(),
+        },
+        ["vi.cmp", a, b] => match (unhex(a), unhex(b)) {
+            (Some(a), Some(b)) => match hooks::varint_cmp(&a, &b) {
+                Ok(o) => ord_name(o).into(),
+                Err(e) => format!("err {}", ser_err(&e)),
+            },
+            _ => "bad-op".into(),
+        },
+        ["blob.enc", h] => match unhex(h) {
+            Some(d) => {
+                let b = Blob::from_unencoded_slice(&d);
+                let e: &[u8] = b.as_ref();
+                let rt = match DataTypeKind::Blob.reinterpret_cast(e) {
+                    Ok((DataTypeRef::Blob(r), used)) if used == e.len() && r.data().ok() == Some(&d[..]) => "rt=ok",
+                    _ => "rt=DIFF",
+                };
+                let dl = b.data_length().ok() == Some(d.len()) && b.data().ok() == Some(&d[..]);
+                format!("{} {}", hex(e), if dl { rt } else { "rt=DIFF" })
+            }
+            None => "bad-op".into(),
+        },
+        ["blob.dec", h] => match unhex(h) {
+            Some(bs) => match DataTypeKind::Blob.reinterpret_cast(&bs) {
+                Ok((DataTypeRef::Blob(r), used)) => match r.data() {
+                    Ok(d) => format!("ok data={} used={}", hex_or_dash(d), used),
+                    Err(_) => "ok data=ERR".into(),
+                },
+                Ok(_) => "ok not-a-blob".into(),
+                Err(e) => format!("err {}", ser_err(&e)),
+            },
+            None => "bad-op".into(),
+        },
+        ["blob.cmp", a, b] => match (unhex(a), unhex(b)) {
+            (Some(a), Some(b)) => {
+                let x = Blob::from_unencoded_slice(&a);
+                let y = Blob::from_unencoded_slice(&b);
+                let o = x.partial_cmp(&y);
+                // the borrowed form must agree with the owned one
+                let o_ref = x.as_blob_ref().partial_cmp(&y.as_blob_ref());
+                let eq = x == y;
+                let eq_ref = x.as_blob_ref() == y.as_blob_ref();
+                if o != o_ref || eq != eq_ref {
+                    return format!("REFDIFF owned={:?}/{} ref={:?}/{}", o, eq, o_ref, eq_ref);
+                }
+                match o {
+                    Some(o) => format!("{} eq={}", ord_name(o), eq),
+                    None => format!("none eq={}", eq),
+                }
+            }
+            _ => "bad-op".into(),
+        },
+        _ => "bad-op".into(),
+    }
+}
+
+impl Engine for ValueEngine {
+    fn exec(&mut self, line: &str) -> String {
+        exec_line(line)
+    }
+
+    fn gen_cases(&self, rng: &mut Rng, tier: Tier) -> Vec<Case> {
+        let scale: u64 = if tier == Tier::Quick { 1 } else { 10 };
+        let mut cases = Vec::new();
+        gen_varint(rng, scale, &mut cases);
+        gen_blob(rng, scale, &mut cases);
+        cases
+    }
+}
+
+// ------------------------------------------------------------------------------------------------ generators
+
+/// i64 values on every boundary of the encoding: 7-bit group edges of the zig-zag image, type limits.
+fn i64_grid() -> Vec<i64> {
+    let mut g: Vec<i64> = vec![0, 1, -1, 2, -2, i64::MIN, i64::MIN + 1, i64::MAX, i64::MAX - 1];
+    for k in 1..=9u32 {
+        // zigzag(v) < 2^(7k)  <=>  -2^(7k-1) <= v < 2^(7k-1)
+        let e: i128 = 1i128 << (7 * k - 1);
+        for d in [-2i128, -1, 0, 1] {
+            for s in [1i128, -1] {
+                let v = s * e + d;
+                if v >= i64::MIN as i128 && v <= i64::MAX as i128 {
+                    g.push(v as i64);
+                }
+            }
+        }
+    }
+    for k in [24u32, 31, 32, 53, 62] {
+        for d in [-1i64, 0, 1] {
+            g.push((1i64 << k).wrapping_add(d));
+            g.push((1i64 << k).wrapping_neg().wrapping_add(d));
+        }
+    }
+    g.sort();
+    g.dedup();
+    g
+}
+
+fn rand_i64(rng: &mut Rng) -> i64 {
+    match rng.below(4) {
+        0 => rng.range(-200, 200),
+        1 => {
+            let bits = rng.below(64) as u32;
+            let v = rng.next_u64() >> (63 - bits.min(63));
+            if rng.chance(1, 2) { v as i64 } else { (v as i64).wrapping_neg() }
+        }
+        2 => *rng.pick(&i64_grid()),
+        _ => rng.next_u64() as i64,
+    }
+}
+
+fn size_tag(n: usize) -> String {
+    format!("vlen{}", n)
+}
+
+fn gen_varint(rng: &mut Rng, scale: u64, cases: &mut Vec<Case>) {
+    let grid = i64_grid();
+    for &v in &grid {
+        let n = hooks::varint_encoded_size(v);
+        let nt = if n > 1 { "nt" } else { "triv" };
+        cases.push(Case::new(format!("vi.enc {}", v), &["vi.enc", "grid", &size_tag(n), nt]));
+        cases.push(Case::new(format!("zz {}", v), &["zz", "grid", nt]));
+        cases.push(Case::new(format!("uzz {}", v as u64), &["uzz", "grid", nt]));
+    }
+    for u in [0u64, 1, 2, 3, u64::MAX, u64::MAX - 1, 1 << 63, (1 << 63) - 1, (1 << 63) + 1] {
+        cases.push(Case::new(format!("uzz {}", u), &["uzz", "grid", "nt"]));
+    }
+    for _ in 0..1500 * scale {
+        let v = rand_i64(rng);
+        let n = hooks::varint_encoded_size(v);
+        let nt = if n > 1 { "nt" } else { "triv" };
+        cases.push(Case::new(format!("vi.enc {}", v), &["vi.enc", "random", &size_tag(n), nt]));
+    }
+    for _ in 0..300 * scale {
+        cases.push(Case::new(format!("zz {}", rand_i64(rng)), &["zz", "random", "nt"]));
+        cases.push(Case::new(format!("uzz {}", rng.next_u64()), &["uzz", "random", "nt"]));
+    }
+    // decoder inputs
+    for len in 0..=12usize {
+        // nothing but continuation bytes; and the same with a terminator at the very end
+        let all = vec![0x80u8 | (len as u8); len];
+        cases.push(Case::new(format!("vi.dec {}", hex_or_dash(&all)), &["vi.dec", "dec-unterminated", "nt"]));
+        cases.push(Case::new(format!("vi.read {}", hex_or_dash(&all)), &["vi.read", "dec-unterminated", "nt"]));
+        let mut t = vec![0xffu8; len];
+        t.push(0x01);
+        let tag = if t.len() > 10 { "dec-overlong" } else { "dec-maxbits" };
+        cases.push(Case::new(format!("vi.dec {}", hex(&t)), &["vi.dec", tag, "nt"]));
+        cases.push(Case::new(format!("vi.read {}", hex(&t)), &["vi.read", tag, "nt"]));
+    }
+    for last in [0x00u8, 0x01, 0x02, 0x03, 0x7e, 0x7f] {
+        // ten bytes whose last one carries bits beyond 64
+        let mut t = vec![0xffu8; 9];
+        t.push(last);
+        cases.push(Case::new(format!("vi.dec {}", hex(&t)), &["vi.dec", "dec-bits-dropped", "nt"]));
+        let mut z = vec![0x80u8; 9];
+        z.push(last);
+        cases.push(Case::new(format!("vi.dec {}", hex(&z)), &["vi.dec", "dec-noncanonical", "nt"]));
+    }
+    for _ in 0..2500 * scale {
+        let (bs, tag) = match rng.below(5) {
+            0 => (rng.rbytes(0, 14), "dec-random"),
+            1 => {
+                // valid encoding followed by anything
+                let mut e = hooks::varint_encode(rand_i64(rng));
+                e.extend(rng.rbytes(0, 4));
+                (e, "dec-valid-plus-rest")
+            }
+            2 => {
+                // valid encoding cut short
+                let mut e = hooks::varint_encode(rand_i64(rng));
+                let cut = rng.below(e.len() as u64) as usize;
+                e.truncate(cut);
+                (e, "dec-truncated")
+            }
+            3 => {
+                // continuation bytes of random length, then maybe a terminator
+                let n = rng.below(13) as usize;
+                let mut e: Vec<u8> = (0..n).map(|_| 0x80 | rng.next_u64() as u8).collect();
+                if rng.chance(2, 3) {
+                    e.push(rng.next_u64() as u8 & 0x7f);
+                }
+                (e, "dec-structured")
+            }
+            _ => {
+                // non-canonical: padded with 0x80 … 0x00
+                let mut e = hooks::varint_encode(rand_i64(rng));
+                let l = e.len();
+                let pad = rng.below(4) as usize;
+                if pad > 0 {
+                    e[l - 1] |= 0x80;
+                    for _ in 1..pad {
+                        e.push(0x80);
+                    }
+                    e.push(0x00);
+                }
+                (e, "dec-noncanonical")
+            }
+        };
+        let op = if rng.chance(1, 5) { "vi.read" } else { "vi.dec" };
+        cases.push(Case::new(format!("{} {}", op, hex_or_dash(&bs)), &[op, tag, "nt"]));
+    }
+    for _ in 0..300 * scale {
+        let a = hooks::varint_encode(rand_i64(rng));
+        let b = if rng.chance(1, 6) { a.clone() } else { hooks::varint_encode(rand_i64(rng)) };
+        cases.push(Case::new(format!("vi.cmp {} {}", hex(&a), hex(&b)), &["vi.cmp", "nt"]));
+    }
+}
+
+/// Byte strings around every length at which the comparator or the length prefix changes behaviour.
+fn blob_len_grid() -> Vec<usize> {
+    vec![0, 1, 2, 7, 8, 9, 15, 16, 17, 23, 24, 25, 31, 32, 33, 63, 64, 65, 127, 128, 8191, 8192, 8193]
+}
+
+fn rand_blob(rng: &mut Rng) -> Vec<u8> {
+    let n = match rng.below(6) {
+        0 => 0,
+        1 => rng.below(9) as usize,
+        2 => 8 + rng.below(20) as usize,
+        3 => *rng.pick(&blob_len_grid()).min(&200),
+        4 => rng.below(70) as usize,
+        _ => rng.below(300) as usize,
+    };
+    match rng.below(4) {
+        0 => vec![*rng.pick(&[0u8, 0x7f, 0x80, 0xff, b'a']); n],
+        1 => (0..n).map(|_| *rng.pick(&[0u8, 0x7f, 0x80, 0xff])).collect(),
+        2 => (0..n).map(|_| b'a' + rng.below(3) as u8).collect(),
+        _ => rng.bytes(n),
+    }
+}
+
+/// A partner for `a` that agrees with it on a long prefix (so that the chunked comparison has to go deep).
+fn related_blob(rng: &mut Rng, a: &[u8]) -> (Vec<u8>, &'static str) {
+    match rng.below(7) {
+        0 => (a.to_vec(), "cmp-identical"),
+        1 => {
+            let cut = rng.below(a.len() as u64 + 1) as usize;
+            (a[..cut].to_vec(), "cmp-prefix")
+        }
+        2 => {
+            let mut b = a.to_vec();
+            b.extend(rng.rbytes(1, 10));
+            (b, "cmp-extension")
+        }
+        3 | 4 if !a.is_empty() => {
+            let mut b = a.to_vec();
+            let i = rng.below(a.len() as u64) as usize;
+            b[i] = match rng.below(3) {
+                0 => b[i].wrapping_add(1),
+                1 => b[i] ^ 0x80,
+                _ => rng.next_u64() as u8,
+            };
+            // optionally also change the length, so that "differs at i" competes with "shorter"
+            match rng.below(3) {
+                0 => b.truncate(i + 1 + rng.below((a.len() - i) as u64) as usize),
+                1 => b.extend(rng.rbytes(0, 9)),
+                _ => {}
+            }
+            (b, "cmp-differs-at")
+        }
+        _ => (rand_blob(rng), "cmp-unrelated"),
+    }
+}
+
+fn gen_blob(rng: &mut Rng, scale: u64, cases: &mut Vec<Case>) {
+    for &n in &blob_len_grid() {
+        let d = rng.bytes(n);
+        let nt = if n > 0 { "nt" } else { "triv" };
+        cases.push(Case::new(format!("blob.enc {}", hex_or_dash(&d)), &["blob.enc", "grid", nt]));
+    }
+    for _ in 0..400 * scale {
+        let d = rand_blob(rng);
+        let nt = if !d.is_empty() { "nt" } else { "triv" };
+        cases.push(Case::new(format!("blob.enc {}", hex_or_dash(&d)), &["blob.enc", "random", nt]));
+    }
+    // decoder
+    for _ in 0..2000 * scale {
+        let (bs, tag) = match rng.below(6) {
+            0 => (rng.rbytes(0, 20), "bdec-random"),
+            1 => {
+                let b = Blob::from_unencoded_slice(&rand_blob(rng));
+                let mut e = b.as_ref().to_vec();
+                e.extend(rng.rbytes(0, 5));
+                (e, "bdec-valid-plus-rest")
+            }
+            2 => {
+                let d = rand_blob(rng);
+                let b = Blob::from_unencoded_slice(&d);
+                let mut e = b.as_ref().to_vec();
+                let cut = rng.below(e.len() as u64) as usize;
+                e.truncate(cut);
+                (e, "bdec-truncated")
+            }
+            3 => {
+                // length prefix that is negative (odd zig-zag image)
+                let v = -rng.range(1, 40);
+                let mut e = hooks::varint_encode(v);
+                e.extend(rng.rbytes(0, 6));
+                (e, "bdec-negative-len")
+            }
+            4 => {
+                // huge announced length
+                let v = match rng.below(3) {
+                    0 => i64::MAX,
+                    1 => i64::MIN,
+                    _ => rand_i64(rng),
+                };
+                let mut e = hooks::varint_encode(v);
+                e.extend(rng.rbytes(0, 6));
+                (e, "bdec-any-len")
+            }
+            _ => {
+                // announced length off by a little
+                let d = rand_blob(rng);
+                let v = (d.len() as i64 + rng.range(-2, 2)).max(0);
+                let mut e = hooks::varint_encode(v);
+                e.extend(&d);
+                (e, "bdec-len-off-by")
+            }
+        };
+        cases.push(Case::new(format!("blob.dec {}", hex_or_dash(&bs)), &["blob.dec", tag, "nt"]));
+    }
+    // comparator: exhaustive pairs over a small structured grid …
+    let mut grid: Vec<Vec<u8>> = vec![vec![]];
+    for n in [1usize, 7, 8, 9, 16, 17] {
+        for fill in [0x00u8, 0x7f, 0x80, 0xff] {
+            grid.push(vec![fill; n]);
+        }
+        let mut v = vec![0x61u8; n];
+        *v.last_mut().unwrap() = 0x62;
+        grid.push(v);
+    }
+    for a in &grid {
+        for b in &grid {
+            let nt = if a.is_empty() && b.is_empty() { "triv" } else { "nt" };
+            cases.push(Case::new(
+                format!("blob.cmp {} {}", hex_or_dash(a), hex_or_dash(b)),
+                &["blob.cmp", "cmp-grid", nt],
+            ));
+        }
+    }
+    // … and related random pairs
+    for _ in 0..4000 * scale {
+        let a = rand_blob(rng);
+        let (b, tag) = related_blob(rng, &a);
+        let deep = if a.len().min(b.len()) > 8 { "cmp-chunked" } else { "cmp-bytewise" };
+        let (a, b) = if rng.chance(1, 2) { (a, b) } else { (b, a) };
+        cases.push(Case::new(
+            format!("blob.cmp {} {}", hex_or_dash(&a), hex_or_dash(&b)),
+            &["blob.cmp", tag, deep, "nt"],
+        ));
+    }
+}
+
+/// Content of `lean/AxVerif/Generated/Value.lean`, if this engine extracts constants from the code.
 pub fn generated() -> Option<(&'static str, String)> {
     None
 }
